@@ -120,6 +120,58 @@ def export_rel(x, names):
     raise Outside(f'relational IR node {c}')
 
 
+def unshare(x):
+    """A structurally equal copy of a relational / value IR in which no node object occurs twice and no type is cached
+    (the front end re-uses e.g. the row reference of a table in several nodes; compute_type(deep) asserts that a node
+    visited twice gets the same type, which is wrong for a shared node that sits under two different binders).  Declared
+    types (of references) are kept: they are what the deep pass checks."""
+    c = type(x).__name__
+    if c == 'TopLevelReference':                   # (the repo's copy() of these three reads a non-existent attribute)
+        return ir.TopLevelReference(x.name, x._typ)
+    if c == 'SelectedTopLevelReference':
+        return ir.SelectedTopLevelReference(x.ref.name, x._typ)
+    if c == 'ProjectedTopLevelReference':
+        return ir.ProjectedTopLevelReference(x.ref.name, x.field, x._typ)
+    if isinstance(x, ir.IR):
+        return x.copy(*[unshare(ch) if isinstance(ch, ir.BaseIR) else ch for ch in x.children])
+    u = unshare
+    if c == 'TableRange':
+        return ir.TableRange(x.n, x.n_partitions)
+    if c == 'TableKeyBy':
+        return ir.TableKeyBy(u(x.child), x.keys, x.is_sorted)
+    if c == 'TableMapRows':
+        return ir.TableMapRows(u(x.child), u(x.new_row))
+    if c == 'TableMapGlobals':
+        return ir.TableMapGlobals(u(x.child), u(x.new_globals))
+    if c == 'TableFilter':
+        return ir.TableFilter(u(x.child), u(x.pred))
+    if c == 'TableLeftJoinRightDistinct':
+        return ir.TableLeftJoinRightDistinct(u(x.left), u(x.right), x.root)
+    if c == 'TableIntervalJoin':
+        return ir.TableIntervalJoin(u(x.left), u(x.right), x.root, x.product)
+    if c == 'TableJoin':
+        return ir.TableJoin(u(x.left), u(x.right), x.join_type, x.join_key)
+    if c in ('MatrixRowsTable', 'MatrixColsTable', 'MatrixEntriesTable'):
+        return getattr(ir, c)(u(x.child))
+    if c == 'MatrixRead':
+        return x                                   # a leaf whose type was given at construction
+    if c == 'MatrixMapRows':
+        return ir.MatrixMapRows(u(x.child), u(x.new_row))
+    if c == 'MatrixMapCols':
+        return ir.MatrixMapCols(u(x.child), u(x.new_col), x.new_key)
+    if c == 'MatrixMapEntries':
+        return ir.MatrixMapEntries(u(x.child), u(x.new_entry))
+    if c == 'MatrixMapGlobals':
+        return ir.MatrixMapGlobals(u(x.child), u(x.new_global))
+    if c == 'MatrixKeyRowsBy':
+        return ir.MatrixKeyRowsBy(u(x.child), x.keys, x.is_sorted)
+    if c == 'MatrixAnnotateRowsTable':
+        return ir.MatrixAnnotateRowsTable(u(x.child), u(x.table), x.root, x.product)
+    if c == 'MatrixAnnotateColsTable':
+        return ir.MatrixAnnotateColsTable(u(x.child), u(x.table), x.root)
+    raise Outside(f'cannot copy {c}')
+
+
 class Builder:
     def __init__(self):
         self.lookups = []          # dtype of every lookup expression, in construction order
@@ -238,8 +290,15 @@ def run_table(c):
     except Outside as ex:
         out['ir_outside'] = str(ex)
     try:
-        x.compute_type(True)
-        out['deep'] = ttype_neutral(x._type) if is_t else mtype_neutral(x._type)
+        y = unshare(x)
+    except Outside as ex:
+        out['deep_outside'] = str(ex)
+        return out
+    if str(y) != str(x):
+        return {'harness_exc': 'unshare changed the IR: ' + str(y)[:300] + ' / ' + str(x)[:300]}
+    try:
+        y.compute_type(True)
+        out['deep'] = ttype_neutral(y._type) if is_t else mtype_neutral(y._type)
     except AssertionError as ex:
         out['deep_exc'] = {'type': 'AssertionError', 'msg': str(ex)[:300], 'where': where_raised(ex)}
     except Outside as ex:
